@@ -93,10 +93,10 @@ PROPS = {
     },
     "C07": {
         "bin": "px_icy", "budget_ms": 30000, "mem_cap_mb": 2048, "wall_cap": {"quick": 600, "thorough": 2400},
-        "rule": "documents: a two-layer base document varied in every single dimension, every pair of dimensions and every triple of dimensions (quick: the triples with <=100 combinations; thorough: all 255 000 triples) over 18 dimensions - layer count 1..=6, layer size "
-                "{0x0,1x1,2x2,3x1,200x2,1x120,0x2,2x0,200x120}, offsets {-50,-1,0,2,50}, all 32 flag combinations of a normal and of the base layer, 3 modes, colour tag, transparency {0,1,255}, default font page {0,255,300}, "
-                "titles (empty, Unicode incl. astral, 300 chars, embedded NUL), 5 buffer types, 3 ice modes, 4 palette modes, 4 font modes, palettes of 16/1/17/300 colours, font slots {0}/{0,1}/{0,255,300}/{0: default font edited in place}, a palette with equal neighbouring entries, SAUCE none/plain/with comments, "
-                "buffer sizes up to 200x120; cells: every row of length 0..=4 over 7 cell kinds (short, long char, long colour, long font page, invisible, transparent fg, transparent bg) in layers of width len, len+1, len+3 (row terminator placement); "
+        "rule": "documents: a two-layer base document varied in every single dimension, every pair of dimensions and every triple of dimensions (quick: the triples with <=100 combinations; thorough: all 255 000 triples) over 19 dimensions - layer count 1..=6, layer size "
+                "{0x0,1x1,2x2,3x1,200x2,1x120,0x2,2x0,200x120}, offsets {-50,-1,0,2,50}, all 32 flag combinations of a normal and of the base layer, 3 modes, colour tag, transparency {0,1,255}, default font page {0,255,300} (with and without a font in that slot), image layers (a picture at offsets (0,0) (1,1) (-1,0) (3,2) (0,-1); role image with its picture removed), "
+                "titles (empty, Unicode incl. astral, 300 chars, embedded NUL), 5 buffer types, 3 ice modes, 4 palette modes, 4 font modes, palettes of 16/1/17/300 colours, font slots {0}/{0,1}/{0,255,300}/{0: default font edited in place}, a palette with equal neighbouring entries, SAUCE none/plain/with comments and a 1996 date (the date is compared), "
+                "buffer sizes up to 200x120; cells: every row of length 0..=4 over 8 cell kinds (short, long char, long colour, long font page, invisible, invisible with a character / colours / other flags, transparent fg, transparent bg) in layers of width len, len+1, len+3 (row terminator placement); "
                 "non-trivial = every document (all contain visible cells)",
         "level_text": "every document of the stated small scope is saved by the real Buffer::to_bytes(\"icy\", lossless) and loaded by the real Buffer::from_bytes and compared field by field",
         "level_note": "invisible cells compare as invisible only; documents referencing a font page without a font or a colour beyond the palette are excluded as the statement excludes them",
@@ -176,7 +176,7 @@ PROPS = {
     },
     "C18": {
         "bin": "px_finite", "max_shards": 4,
-        "rule": "complete enumeration of 3x256 attribute bytes, all (fg,bg,blink,bold) tuples expressible in each mode, 4x256 code page codes, 4x63 typed characters; every code round trip with every other code conversion interleaved and every typed-character round trip after every other lookup (all ordered pairs of calls - the converters are used as pure functions); "
+        "rule": "complete enumeration of 3x256 attribute bytes, all (fg,bg,blink,bold) tuples expressible in each mode, 4x256 code page codes (round trip claimed for all CP437 codes, the 128 ATASCII base codes and the printable Viewdata codes 0x21..=0x7E), 4x63 typed characters; every code round trip with every other code conversion interleaved and every typed-character round trip after every other lookup (all ordered pairs of calls - the converters are used as pure functions); "
                 "distinct_nontrivial = distinct (input, decoded value) fingerprints",
         "level_text": "the whole finite domain is enumerated on the real code: 3x256 attribute bytes, every expressible (fg,bg,blink,bold) tuple per mode, 4x256 code-page codes, 4x63 typed characters",
         "level_note": "trusts the harness's reading of 'expressible' (what from_u8 decodes) and compares displayed foreground (bold folded)",
